@@ -100,11 +100,26 @@ def key_lattice(ctx: Ctx):
         "tuple(((*self._insertion_position(subtotal), neg_idx) for subtotal, neg_idx in zip(self._subtotals, tuple((i - len(self._subtotals) for i in range(len(self._subtotals)))))))",
         "insertion idx = i - n: negative, strictly increasing in definition order (ties at one anchor keep definition order)",
     )
-    e = expand(ctx.repo, ci, "_display_order", stop=lambda mm: True)
-    leaves = strip_ifexp_paths(e)
-    srt = "sorted(self._base_element_orderings + self._insertion_orderings + self._derived_element_orderings)"
-    ok = all(srt in u(l) for _g, l in leaves)
-    ctx.ob("key-lattice.merge", f"{COL}::_BaseAnchoredCollator._display_order", ok, True, ok, "one sort of the union of base, insertion and derived keys")
+    # helper methods inlined (a shared `_visible_idxs_in_order(orderings, hidden)`), properties kept symbolic
+    e = expand(ctx.repo, ci, "_display_order", stop=lambda mm: mm.kind in ("lazyproperty", "property"))
+    FAMILIES = {"self._base_element_orderings": "base", "self._insertion_orderings": "insertion", "self._view_insertions_ordering": "insertion", "self._derived_element_orderings": "derived"}
+
+    def families(x):
+        return {FAMILIES[u(n)] for n in ast.walk(x) if isinstance(n, ast.Attribute) and u(n) in FAMILIES}
+
+    verdicts = []
+    for _g, l in strip_ifexp_paths(e):
+        sorts = [families(c) for c in ast.walk(l) if isinstance(c, ast.Call) and u(c.func) in ("sorted", "np.sort") or (isinstance(c, ast.Call) and isinstance(c.func, ast.Attribute) and c.func.attr == "sort" and False)]
+        allf = families(l)
+        if any(f == {"base", "insertion", "derived"} for f in sorts):
+            verdicts.append(True)
+        elif allf == {"base", "insertion", "derived"} and sorts:
+            verdicts.append(False)  # all three families are placed, but the sort covers only some of them
+        else:
+            verdicts.append(None)
+    ok = False if False in verdicts else (True if verdicts and all(v is True for v in verdicts) else None)
+    ctx.ob("key-lattice.merge", f"{COL}::_BaseAnchoredCollator._display_order", "one sort over base + insertion + derived keys" if ok else ("the sort covers only part of the three key families" if ok is False else "sort of the three key families not located"),
+           "one sort over base + insertion + derived keys", ok, "one sort of the union of base, insertion and derived keys")
     e = expand(ctx.repo, ci, "_element_positions_by_id", stop=lambda mm: True)
     ctx.check_expr("key-lattice", f"{COL}::_BaseAnchoredCollator._element_positions_by_id", e, "{element_id: position for position, _, element_id in self._element_order_descriptors}", "an anchor refers to the DISPLAY position of its element (follows an explicit order)")
     # derived elements
@@ -116,9 +131,43 @@ def key_lattice(ctx: Ctx):
     for gs, leaf in strip_ifexp_paths(body):
         if isinstance(leaf, ast.Tuple) and len(leaf.elts) == 2:
             poss.append((" & ".join(("" if p else "not ") + u(g)[-45:] for g, p in gs[-2:]), _const(leaf.elts[0]), u(leaf.elts[1])))
-    want_rel = "-1 if self._elements.get_by_id(element_id).anchor.get('position') == 'before' else 1"
-    ok = any(r == want_rel for _k, _p, r in poss) and any(p == -1 for _k, p, _r in poss) and sum(1 for _k, p, _r in poss if p == MAXSIZE) >= 3
-    ctx.ob("key-lattice.derived", f"{COL}::ExplicitOrderCollator._derived_element_position", poss, "top=(-1,0); bottom / no anchor / stale = (maxsize,0); anchored = (pos, -1 if before else +1)", ok, "before < element (rel 0) < after")
+    # decision table (DECTAB) over the anchor kinds of a derived element: whatever the arrangement of the guards
+    from ..dectab import DTop, ModelInterp, Raises
+
+    where_d = f"{COL}::ExplicitOrderCollator._derived_element_position"
+    positions = {"a": 0, "b": 2, 0: 1}
+    cases = [
+        (None, (MAXSIZE, 0)), ("top", (-1, 0)), ("bottom", (MAXSIZE, 0)),
+        ({"alias": "b", "position": "after"}, (2, 1)), ({"alias": "b", "position": "before"}, (2, -1)),
+        ({"alias": "a", "position": "before"}, (0, -1)), ({"alias": "a", "position": "after"}, (0, 1)), ({"alias": 0, "position": "after"}, (1, 1)),
+        ({"alias": "a"}, (0, 1)), ({"alias": "zz", "position": "after"}, (MAXSIZE, 0)), ({"alias": "zz", "position": "before"}, (MAXSIZE, 0)),
+    ]
+    bad, undec = [], None
+    for anchor, want_v in cases:
+        def atoms(x, anchor=anchor):
+            t = u(x)
+            if t in ("self._elements.get_by_id(element_id).anchor", "self._elements.get_by_id(element_id)._anchor"):
+                return anchor
+            if t == "self._element_positions_by_id":
+                return positions
+            if t == "sys.maxsize":
+                return MAXSIZE
+            raise KeyError
+
+        try:
+            got = ModelInterp(atoms).ev(body)
+        except Raises as r:
+            bad.append(f"anchor {anchor!r}: raises {r.etype}")
+            continue
+        except DTop as t:
+            undec = str(t)
+            break
+        if tuple(got) != want_v:
+            bad.append(f"anchor {anchor!r} -> {tuple(got)}, specified {want_v}")
+    if undec:
+        ctx.undecided("key-lattice.derived", where_d, "DECTAB: " + undec, "top=(-1,0); bottom / no anchor / stale = (maxsize,0); anchored = (pos, -1 if before else +1)")
+    else:
+        ctx.ob("key-lattice.derived", where_d, bad[:4] or f"{len(cases)} anchor kinds", "top=(-1,0); bottom / no anchor / stale = (maxsize,0); anchored = (pos, -1 if before else +1)", not bad, "before < element (rel 0) < after; position 0 is a position")
 
 
 def anchor_ownership(ctx: Ctx):
